@@ -246,6 +246,7 @@ def AgentIO.start (P : Prog) : AgentIO :=
 /-- A request of the runtime side. -/
 inductive LReq
   | handler (h : H) (viaCmd : Bool)
+  | dropTake (m : Nat) (drop : Bool) (n : Nat)     -- `@drop(n)` / `@take(n)` sent to a map lane
   | sync (id : Nat) (dirty trigger : Bool)
   deriving Repr
 
@@ -257,6 +258,14 @@ def laneReq (parts : List String) : Option LReq :=
   | ["msync", m] => do
     let m ← m.toNat?
     if m < nm then some (.sync (mid m) Generated.mapSyncDirty Generated.mapSyncTrigger) else none
+  | ["mdrop", m, n] => do
+    let m ← m.toNat?
+    let n ← n.toNat?
+    if m < nm ∧ n < 100 then some (.dropTake m true n) else none
+  | ["mtake", m, n] => do
+    let m ← m.toNat?
+    let n ← n.toNat?
+    if m < nm ∧ n < 100 then some (.dropTake m false n) else none
   | "cmd" :: _ => (laneRequest parts).map fun h => .handler h true
   | _ => (laneRequest parts).map fun h => .handler h false
 
@@ -273,6 +282,9 @@ def AgentIO.request (x : AgentIO) : LReq → AgentIO
     -- the command lane itself is modified by `DoCommand`
     let a := if viaCmd then { a with st := a.st.addDirty cmdId } else a
     AgentIO.endOfIteration { x with agent := a }
+  | .dropTake m drop n =>
+    -- `MapLaneDropOrTake::Init` looks at the map when the command is executed
+    AgentIO.endOfIteration { x with agent := command x.agent (dropTakeH x.agent.st m drop n) }
   | .sync id dirty trigger =>
     -- `exec_handler!(item_model.on_sync(..))`: `ValueLaneSync` / `MapLaneSync` complete with their `Modification`
     let io := x.io.touch Wr.synced id
